@@ -19,8 +19,7 @@ tab=json.load(open('/verif/tables/extern_api.json'))['apis']
 panicking=set(k for k,v in tab.items() if v['disposition']=='panicking')
 cl,sites=common.inventory(ctx,rs,c10.skip,panicking)
 out=[]
-for s_ in sites:
-    r=common.auto_discharge(s_,s_.fn,ctx.T(s_.fn),True)
+for s_,r in common.dedupe(ctx,sites,True):
     if r: continue
     out.append(s_)
 import re
